@@ -709,14 +709,17 @@ func (ex *Exec) mapSnapshot(st *State, m *MapVal) (keys []Value, pres []*Term, v
 		if dup {
 			continue
 		}
-		// keys that may alias an earlier, different-looking key are not supported for iteration
+		// a key that may alias an earlier, different-looking key is visited only when it differs from all of them (the
+		// earlier entry is then the representative; its lookup already yields the latest value stored under that key)
+		notDup := True
 		for j := 0; j < i; j++ {
 			eq := ex.valueEq(st, m.Entries[j].K, e.K)
 			if !eq.IsFalse() && !eq.IsTrue() {
-				panic(unsupported("range over map with possibly aliasing symbolic keys"))
+				notDup = And(notDup, Not(eq))
 			}
 		}
 		v, p := ex.mapLookup(st, m, ex.keyToValue(st, e.K))
+		p = And(p, notDup)
 		if p.IsFalse() {
 			continue
 		}
